@@ -236,10 +236,13 @@ func runWiring(w WiringCase) (kind, detail string) {
 		}
 		defer ln.Close()
 		go func() {
-			c, err := ln.Accept()
-			if err == nil {
+			for {
+				c, err := ln.Accept()
+				if err != nil {
+					return
+				}
 				record(c)
-				time.Sleep(200 * time.Millisecond)
+				time.Sleep(100 * time.Millisecond)
 				c.Close()
 			}
 		}()
@@ -272,6 +275,35 @@ func runWiring(w WiringCase) (kind, detail string) {
 	isTLS := b == 0x16
 	if isTLS != wantTLS {
 		return map[bool]string{true: "plaintext-instead-of-tls", false: "tls-instead-of-plaintext"}[wantTLS], fmt.Sprintf("first byte on the wire 0x%02x, documented TLS=%v", b, wantTLS)
+	}
+	if strings.HasPrefix(w.Scheme, "std") {
+		return "", ""
+	}
+	// the same upstream object is used again after the session was lost: the transport it
+	// selects must not depend on how often it connected before
+	select {
+	case <-done:
+	case <-time.After(10 * time.Second):
+		return "inconclusive", "first Connect did not return"
+	}
+	for attempt := 2; attempt <= 3; attempt++ {
+		go func() { done <- ups.Connect(cc, false) }()
+		select {
+		case <-got:
+		case <-time.After(10 * time.Second):
+			return "inconclusive", fmt.Sprintf("connection attempt %d sent nothing within 10 s real time", attempt)
+		}
+		mu.Lock()
+		b = first[len(first)-1]
+		mu.Unlock()
+		if (b == 0x16) != wantTLS {
+			return map[bool]string{true: "plaintext-instead-of-tls", false: "tls-instead-of-plaintext"}[wantTLS] + "|on-reconnect", fmt.Sprintf("connection attempt %d of the same upstream: first byte on the wire 0x%02x, documented TLS=%v", attempt, b, wantTLS)
+		}
+		select {
+		case <-done:
+		case <-time.After(10 * time.Second):
+			return "inconclusive", "Connect did not return"
+		}
 	}
 	return "", ""
 }
